@@ -77,7 +77,9 @@ Record obs := Obs {
   o_loaded : bool;            (* get_rulebook(hw) returned (rendered, parsed, compiled) *)
   o_logic : bool;             (* every logic / diff_logic / apply_logic is a resolved callable *)
   o_regex : bool;             (* every row regexp is a compiled pattern *)
-  o_digest : list string      (* canonical digests of the rulebook from fresh providers *)
+  o_digest : list string      (* canonical digests of the rulebook: two fresh providers (caches cleared), the public
+                                 get_rulebook, and - after real patch operations with a non-empty RefTracker for that
+                                 hardware in the same process - the public get_rulebook and a brand new provider again *)
 }.
 
 Definition all_same (l : list string) : bool :=
@@ -111,3 +113,21 @@ Definition P_C18_static (ks all : list seq) (vs : vendors) (tr : list seq) (v : 
 (* set equality of sequence lists (true_sequences is a set) *)
 Definition set_eqb (a b : list seq) : bool :=
   forallb (fun x => mem x b) a && forallb (fun x => mem x a) b.
+
+(* ---- the families reported true are exactly those the regexes say (added for seeded C18-5) ---- *)
+
+(* "the hardware attributes of a model": a database entry (family path) s is reported true
+   EXACTLY when each step of its chain of regexes is found in the model string - neither more
+   (a leaf true without its parents) nor less (a sibling family skipped because another
+   sibling matched first).  ks = keys of the database, tr = the true sequences reported. *)
+Definition chain_ok (M : Type) (hit : rid -> M -> bool) (d : db) (m : M) (ks tr : list seq) : bool :=
+  forallb (fun s => Bool.eqb (mem s tr) (chain_hits M hit d m s)) ks.
+
+(* P_C18 with the clause above; hits = the regex ids found in the model string *)
+Definition P_C18_full (M : Type) (hit : rid -> M -> bool) (d : db) (ks all : list seq) (vs : vendors)
+           (m : M) (y : obs) : bool :=
+  P_C18 ks all vs y &&
+  match o_true y with
+  | Some tr => chain_ok M hit d m ks tr
+  | None => false
+  end.
